@@ -73,6 +73,9 @@ class SocketServer_Multiplex(object):
 
     def events(self, eventsockets):
         """handle events that occur on one of the sockets of this server"""
+        # housekeeping first: a daemon that was idle (own event loop calling events() only when something arrives) must
+        # have forgotten expired streams before it serves the client that comes back
+        self.daemon._housekeeping()
         for s in eventsockets:
             if self.shutting_down:
                 return
